@@ -20,7 +20,7 @@ import math
 import re
 from collections import Counter, defaultdict
 
-from .core import H, rng_for, digest, sha, jdump, HarnessError, raised_in_harness
+from .core import H, rng_for, digest, sha, jdump, HarnessError, raised_in_harness, apply_env, env_debug_logging
 from . import gen_sampler, gen_mol
 from .gen_sampler import norm_key, is_complement, complements, materialise
 
@@ -110,7 +110,7 @@ def generate(run_seed, prop, tier="quick"):
     if firsts:
         ops.append(dict(rng.choice(firsts)))
     ctor = ctor_choice
-    scenario = {"family": "sampler", "prop": prop, "run_seed": run_seed, "configs": configs, "mode": mode, "ctor": ctor,
+    scenario = {"family": "sampler", "prop": prop, "run_seed": run_seed, "configs": configs, "mode": mode, "ctor": ctor, "debug_logging": env_debug_logging(run_seed),
                 "entropy": entropy, "ops": ops, "faults_enabled": sorted(k for k, v in faults.items() if v)}
     if prop == "C09":
         scenario["resolver_items"] = [gen_mol.build_item(rng, kind="atomistic", weights=rng.random() < 0.5,
@@ -492,6 +492,8 @@ def run_history(scenario, only=None):
     violations = []
     stats = {}
     events = []
+    if only is None:
+        apply_env(sc, stats)
     # the process-global generators are part of the simulated world too: a sampler that
     # forgets to seed must still replay exactly, so their start state derives from the run
     stdlib_random.seed(H("global-random", sc["run_seed"], "history" if only is None else ("reference", only)))
